@@ -493,6 +493,69 @@ pub fn run_check(replay: Option<Value>) -> i32 {
             Some(out)
         });
     }
+    // The iteration matrix of an implicit method exactly singular on the step that is clipped to xend (first_step
+    // >= span): y2' = lambda y2 with lambda = kappa / h for the real Radau eigenvalue kappa = u1 (three neighbouring
+    // doubles) and for kappa = 1 (BDF at order one), y2(x0) = 0.  The factorisation fails, the step is halved with
+    // the last-step flag set, and the run still has to cover the interval or say that it did not.
+    {
+        let u1 = 3.637_834_252_744_496f64;
+        let kappas = [f64::from_bits(u1.to_bits() - 1), u1, f64::from_bits(u1.to_bits() + 1), 1.0];
+        let gdims = vec![
+            dim("method", &["RADAU", "BDF"]),
+            dim("kappa", &kappas),
+            dim("span", &[0.5, 1.0, 2.0, 3.0]),
+            dim("direction", &["forward", "backward"]),
+            dim("first_step", &["span", "2 span", "span/2", "span/4"]),
+            dim("mass", &["identity", "diag(2, 1/2) (low-level form not used: lambda scaled instead)"]),
+        ];
+        lattice(&mut rep, "singular", &gdims, only.as_deref(), |key, idx| {
+            let m = [Method::RADAU, Method::BDF][idx[0]];
+            let span = [0.5, 1.0, 2.0, 3.0][idx[2]];
+            let xend = if idx[3] == 0 { span } else { -span };
+            let h = xend * [1.0, 1.0, 0.5, 0.25][idx[4]];
+            let fs = xend * [1.0, 2.0, 0.5, 0.25][idx[4]];
+            // (the second "mass" entry halves lambda: singular for a step of twice the length, i.e. not on the first attempt
+            // but on a later one when the controller doubles)
+            let lam = kappas[idx[1]] / h * if idx[5] == 0 { 1.0 } else { 0.5 };
+            let p = Prob {
+                name: format!("y1'=-y1, y2'={:e} y2 on the line y2=0", lam),
+                n: 2,
+                f: Arc::new(move |_t, y, d| {
+                    d[0] = -y[0];
+                    d[1] = lam * y[1];
+                }),
+                jac: Some(Arc::new(move |_t, _y| vec![-1.0, 0.0, 0.0, lam])),
+                flow: None,
+                y0: vec![1.0, 0.0],
+                linear_homogeneous: true,
+            };
+            let mut c = Cfg::new(m, 0.0, xend, &p.y0).tol(1e-4, 1e-8);
+            c.user_jac = true;
+            c.first_step = Some(fs);
+            c.budget = 3_000_000;
+            let r = run(&p, &c);
+            let mut out = CaseOut::default();
+            let mut vs = vec![];
+            let mut tags = vec![];
+            monitor(&c, &r, p.n, false, &mut vs, &mut tags);
+            let desc = json!({"key": key, "point": describe(&gdims, idx), "cfg": c.json(&p.name), "outcome": r.outcome_name(),
+                "t_tail": r.sol().map(|s| s.t.iter().rev().take(4).rev().copied().collect::<Vec<_>>())});
+            for (k, msg) in vs {
+                out.violations.push(Violation::new(key, &k, msg, desc.clone()).with("method", mname(m)).with("span", "singular").with("first_step", "covering").with("t_eval", false).with("events", "None").with("status", r.outcome_name()));
+            }
+            if r.sol().map(|s| s.nrejct > 0 || s.nstep > s.naccpt).unwrap_or(false) {
+                out.tag("singular-scene-with-repeated-step");
+            }
+            out.tag("singular-iteration-matrix-scene");
+            out.events = r.st.n_ode;
+            out.validated = 1;
+            let mut h = r.st.fp;
+            h.s(key);
+            out.fp = Some(h.as_u128());
+            out.sample = Some(desc);
+            Some(out)
+        });
+    }
     // Radau over [0, 1e200] (excluded from the lattice above): one run with a budget of 20 000 steps; the interval is
     // covered in a few hundred steps by BDF and by Radau itself up to 1e150
     if only.is_none() || only.as_deref() == Some("radau-huge-span") {
